@@ -264,7 +264,7 @@ def binary_string_field_is_framed_by_its_width_for_every_text(ctx):
 # IORecord.rwBool keeps a value only if it is a Python bool (isinstance(val, bool)): numpy.bool_(True) -- what any
 # comparison or reduction of numpy data yields, e.g. `heating.any()` for the PMATRX flags hasNeutronHeatingAndDamage /
 # hasGammaHeating -- is written as 0 and reads back False.  Reproduction (plain Python) in the report.
-KNOWN_DEFECT_rwBool_drops_numpy_bool = True
+KNOWN_DEFECT_rwBool_drops_numpy_bool = False  # repaired in /repo (fix: afedb36)
 
 BOOLS = {"True": lambda: True, "False": lambda: False,
          "numpy.bool_(True)": lambda: __import__("numpy").bool_(True),
